@@ -207,6 +207,21 @@ def decide(hr, err, undetermined, nchecks):
         hr.status = "inconclusive"
         hr.why = "unwinding assertion / unsupported construct failed: bound too small for this tree"
         return
+    if kind == "maypanic":
+        # the library may reject the call with a panic of its own (located in /repo/src); what it may
+        # not do is fail an oracle / memory-safety check, and some path must run to the end
+        bad = [f for f in hr.failed if f[0] in ("oracle", "memory") or (f[0] == "panic" and not f[3].startswith("/repo/"))]
+        if bad:
+            hr.failed = bad
+            hr.status = "violation"
+            hr.why = "oracle / memory-safety check failed"
+            return
+        if hr.covers.get("end-reached", "").lower() != "satisfied":
+            hr.status = "inconclusive"
+            hr.why = f"vacuous: cover end-reached is {hr.covers.get('end-reached')}"
+            return
+        hr.status = "holds"
+        return
     if kind == "pass":
         if hr.failed:
             hr.status = "violation"
@@ -302,6 +317,8 @@ def native_replay(name, vals, profile):
     cov = re.search(r"^COVERED (.*)$", out, re.M)
     if rc == -9:
         return {"profile": profile, "outcome": "hang", "detail": "killed after 60 s"}
+    if "memory allocation of" in out and "failed" in out:
+        return {"profile": profile, "outcome": "alloc-fail", "detail": "the allocator aborted the process (allocation failure is outside every property)"}
     if not m:
         return {"profile": profile, "outcome": "crash", "detail": f"rc={rc} " + out[-300:].replace("\n", " | ")}
     r = m.group(1)
@@ -332,6 +349,8 @@ def reproduces(hr, rep):
         return True
     if kind == "pass":
         return o == "panic"
+    if kind == "maypanic":
+        return o == "panic" and bool(re.search(r"(C\d\d|ORACLE):", rep["detail"]))
     # must-panic harness: the violation is that the call returns (or an oracle fired)
     if o == "ok":
         return "returned" in rep.get("covered", "")
@@ -350,6 +369,8 @@ def confirm(hr, slot=0):
     for (cls, desc, vals) in tests:
         if cls == "cover" and not (hr.h.kind == "panic" and desc == "returned"):
             continue  # reachability witness, not a counterexample
+        if cls != "cover" and hr.failed and not any(desc.strip('"') == d.strip('"') for (_k, d, *_r) in hr.failed):
+            continue  # a failing check that this harness kind allows (e.g. the library's own rejection)
         any_relevant = True
         is_mem = classify_check({"description": desc, "category": cls}) == "memory"
         entry = {"check": f"{cls}: {desc}", "values": vals, "runs": []}
@@ -369,6 +390,10 @@ def confirm(hr, slot=0):
             verdict = "reproduced"
     if verdict != "reproduced" and "memory" in classes and any_relevant:
         verdict = "ub_only"
+    if verdict == "not_reproduced" and any_relevant and any("unstable_sort_contract" in r for (_o, r) in hr.h.stubs) and "oracle" in classes:
+        # the counterexample uses an outcome std's unstable sort is allowed to produce but its current
+        # implementation does not (it is an insertion sort at these sizes): real per contract, not observable natively
+        verdict = "contract_only"
     return verdict
 
 
@@ -437,7 +462,7 @@ def summarize(prop, tier, seed, res, wall, extra_cov=None, extra_assume=None, t0
         for cand in members[:2]:
             verdict = confirm(cand, slot % 4)
             cand.verdict = verdict
-            if verdict in ("reproduced", "ub_only"):
+            if verdict in ("reproduced", "ub_only", "contract_only"):
                 return (key, members, cand, verdict)
         return (key, members, members[0], "not_reproduced")
 
@@ -460,18 +485,21 @@ def summarize(prop, tier, seed, res, wall, extra_cov=None, extra_assume=None, t0
         for m in members:
             m.verdict = verdict
             m.rep = cand.h.name
-        if verdict in ("reproduced", "ub_only"):
+        if verdict in ("reproduced", "ub_only", "contract_only"):
             violations.append((cand, rpath, members))
         else:
             cand.why += " -- counterexample did not reproduce natively (encoding or stub suspect)"
             inconclusive.append(cand)
-    seen = set()
+    import main as _main
+    seen = _main.KNOWN_PRINTED
     for k, hr in known_hits:
         if k["key"] not in seen:
             seen.add(k["key"])
             log(f"KNOWN-FINDING: property={prop} {k['what']} [key={k['key']}]")
     for hr, rpath, members in violations:
         descs = "; ".join(sorted(set(f"{d} ({os.path.basename(f)}:{l})" for (_k, d, _fn, f, l) in hr.failed)))[:400]
+        if hr.h.kind == "panic" and hr.covers.get("returned", "").lower() == "satisfied":
+            descs = "the call RETURNED normally for arguments that must be rejected (on other paths it panics: " + descs[:200] + ")"
         log(f"VIOLATION property={prop} replay={rpath} harness={hr.h.name} (+{len(members)-1} with the same signature) verdict={hr.verdict} :: {descs or hr.why}")
     for (line, rpath) in (extra_viol or []):
         log(f"VIOLATION property={prop} replay={rpath} {line}")
